@@ -403,13 +403,13 @@ static void invariants(void)
     for (int n = 0; n < CO_TPDO_N; n++) {
         CO_TPDO *p = &Node->TPdo[n];
         if (p->ObjNum > 8) printf("inv tpdo%d-objnum %u\n", n, p->ObjNum);
-        for (int i = 0; i < 8; i++) if (p->Map[i] && !in_dict(p->Map[i])) printf("inv tpdo%d-map-ptr\n", n);
+        for (int i = 0; i < 8 && i < p->ObjNum; i++) if (p->Map[i] && !in_dict(p->Map[i])) printf("inv tpdo%d-map-ptr\n", n);
         if (Node->Sync.TPdo[n] && Node->Sync.TPdo[n] != p) printf("inv sync-tpdo-ptr %d\n", n);
     }
     for (int n = 0; n < CO_RPDO_N; n++) {
         CO_RPDO *p = &Node->RPdo[n];
         if (p->ObjNum > 8) printf("inv rpdo%d-objnum %u\n", n, p->ObjNum);
-        for (int i = 0; i < 8; i++) if (p->Map[i] && !in_dict(p->Map[i])) printf("inv rpdo%d-map-ptr\n", n);
+        for (int i = 0; i < 8 && i < p->ObjNum; i++) if (p->Map[i] && !in_dict(p->Map[i])) printf("inv rpdo%d-map-ptr\n", n);
         if (Node->Sync.RPdo[n] && Node->Sync.RPdo[n] != p) printf("inv sync-rpdo-ptr %d\n", n);
     }
     for (int i = 0; i < CO_TPDO_N * 8; i++) {
